@@ -18,4 +18,7 @@ def run(pid: str, tier: str, seed: int, replay: str | None) -> int:
     if pid == 'C09':
         from . import gear_drv
         return gear_drv.run_C09(tier, seed)
+    if pid in ('C10', 'C20'):
+        from . import relations_drv
+        return getattr(relations_drv, 'run_' + pid)(tier, seed)
     raise Machinery(f'no check registered for {pid}')
